@@ -1,2 +1,182 @@
+"""C05 (C): seeded random cases for spec/rep/Rep.tla.
+
+Only *inputs* are chosen here: random unimodular integer matrices (short products of elementary,
+permutation and sign matrices), random long words, random parameters of the derived kinds.  They
+are written as a wrapper module `RepRand` (EXTENDS Rep, RandCases == <<...>>); TLC checks the
+theorems on them and prints the tables of specified values exactly as for the fixed universe.
+
+TLC integers are 32-bit and TLC aborts on overflow, so every generated case is filtered by a
+conservative magnitude bound (products of max(row-sum, column-sum) norms, n! * norm^n for the
+cofactor expansions) -- an input-domain filter, not an oracle.
+"""
+import math
+import random
+
+import numpy as np
+
+from . import core
+
+LIMIT = 2 ** 29
+LOWER = "abcd"
+
+
+def mnorm(A):
+    A = np.abs(np.array(A, dtype=object))
+    return int(max(max(sum(r) for r in A.tolist()), max(sum(c) for c in A.T.tolist())))
+
+
+def int_inverse(A):
+    inv = np.round(np.linalg.inv(np.array(A, dtype=float))).astype("int64")
+    if not np.array_equal(np.array(A, dtype="int64") @ inv, np.identity(len(A), dtype="int64")):
+        raise ValueError("not unimodular")
+    return inv
+
+
+def rand_unimodular(rng, n, ops):
+    M = np.identity(n, dtype="int64")
+    for _ in range(ops):
+        kind = rng.choice(["elem", "elem", "perm", "sign"]) if n > 1 else "sign"
+        E = np.identity(n, dtype="int64")
+        if kind == "elem":
+            i, j = rng.sample(range(n), 2)
+            E[i, j] = rng.choice([1, -1, 2]) if n <= 3 else rng.choice([1, -1])
+        elif kind == "perm":
+            i, j = rng.sample(range(n), 2)
+            E[[i, j]] = E[[j, i]]
+        else:
+            i = rng.randrange(n)
+            E[i, i] = -1
+        M = M @ E
+    return M
+
+
+def rand_word(rng, letters, length):
+    return tuple(rng.choice(letters) for _ in range(length))
+
+
+def swap(l):
+    return l.upper() if l.islower() else l.lower()
+
+
+def gen_case(rng, idx):
+    for attempt in range(200):
+        n = rng.choice([1, 2, 2, 3, 3, 4, 5])
+        k = rng.randint(1, 4 if n <= 3 else 2)
+        ops = rng.randint(1, 3 if n <= 3 else 2)
+        lo = {LOWER[i]: rand_unimodular(rng, n, ops) for i in range(k)}
+        full = dict(lo)
+        for g, M in lo.items():
+            full[g.upper()] = int_inverse(M)
+        letters = sorted(full)
+        m = {l: mnorm(full[l]) for l in letters}
+        mmax = max(m.values())
+        fact = math.factorial(n)
+
+        def P(w, norms=m):
+            out = 1
+            for l in w:
+                out *= norms[l]
+            return out
+
+        L = 2 if k <= 3 else 1
+        if fact * (mmax ** L) ** n >= LIMIT:
+            L = 1
+            if fact * mmax ** n >= LIMIT:
+                continue
+        LD = 2 if (k <= 2 and n <= 3) else 1
+        LF = 2 if k <= 3 else 1
+        # long words for the base laws
+        xw = set()
+        for _ in range(40):
+            w = rand_word(rng, letters, rng.randint(5, 12))
+            if P(w) < LIMIT and len(xw) < 4:
+                xw.add(w)
+        # derived kinds
+        C = rand_unimodular(rng, n, 2)
+        Ci = int_inverse(C)
+        mC, mCi = mnorm(C), mnorm(Ci)
+        H = {g: rand_unimodular(rng, n, rng.randint(1, 2)) for g in lo}
+        Hfull = dict(H)
+        for g, M in H.items():
+            Hfull[g.upper()] = int_inverse(M)
+        pool = ["copy", "conjugate", "dual", "compose_invT", "compose_kron2", "compose_block", "symmetric_square",
+                "gln_adjoint", "compose_id", "astype"] + (["sln_adjoint"] if n >= 2 else [])
+        names = rng.sample(pool, 4 if n <= 3 else 3)
+        per_letter = {
+            "copy": lambda l: m[l], "astype": lambda l: m[l], "compose_id": lambda l: m[l], "compose_block": lambda l: m[l],
+            "conjugate": lambda l: mCi * m[l] * mC, "dual": lambda l: m[swap(l)], "compose_invT": lambda l: m[swap(l)],
+            "compose_kron2": lambda l: m[l] ** 2, "symmetric_square": lambda l: 4 * m[l] ** 2,
+            "gln_adjoint": lambda l: m[l] * m[swap(l)], "sln_adjoint": lambda l: 2 * m[l] * m[swap(l)],
+            "tensor": lambda l: m[l] * mnorm(Hfull[l]),
+        }
+        needs_inv = {"dual", "compose_invT", "gln_adjoint", "sln_adjoint"}
+
+        def ok_word(w, kinds):
+            for kd in kinds:
+                if P(w, {l: per_letter[kd](l) for l in letters}) * 4 >= LIMIT:
+                    return False
+                if kd in needs_inv and fact * P(w) ** n * max(1, P(w)) >= LIMIT:
+                    return False
+            return True
+
+        all_kinds = names + ["tensor"]
+
+        def worst(kd, length):
+            return (max(letters, key=lambda l: per_letter[kd](l)),) * length
+
+        if not all(ok_word(worst(kd, LD), [kd]) for kd in all_kinds):
+            LD = 1
+            if not all(ok_word(worst(kd, LD), [kd]) for kd in all_kinds):
+                continue
+        if "conjugate" in names and fact * mC ** n >= LIMIT:
+            continue
+        xd = set()
+        for _ in range(40):
+            w = rand_word(rng, letters, rng.randint(3, 5))
+            if ok_word(w, all_kinds) and len(xd) < 2:
+                xd.add(w)
+        # subgroup
+        sub = {}
+        subL = 3 if n <= 3 else 2
+        for i in range(rng.randint(1, 2)):
+            w = rand_word(rng, letters, rng.randint(1, 3))
+            sub[LOWER[i]] = w
+        worst = max(max(P(w), P(tuple(swap(l) for l in w))) for w in sub.values())
+        if worst ** subL >= LIMIT or fact * worst ** n >= LIMIT:
+            sub = {}
+        # relators that hold in every representation: u u^-1 (not freely reduced on purpose)
+        rels = set()
+        for _ in range(2):
+            u = rand_word(rng, letters, rng.randint(1, 3))
+            r = u + tuple(swap(l) for l in reversed(u))
+            if P(r) * len(r) < LIMIT:
+                rels.add(r)
+        kinds = []
+        for kd in names:
+            rec = dict(kind=kd, C=(), m=0)
+            if kd == "conjugate":
+                rec["C"] = tuple(tuple(int(x) for x in r) for r in C)
+            if kd == "compose_block":
+                rec["m"] = n + rng.randint(1, 2)
+            kinds.append(rec)
+        vecs = {tuple(rng.randint(-3, 3) for _ in range(n)) for _ in range(2)}
+        vecs = {v for v in vecs if any(v)}
+        tup = lambda M: tuple(tuple(int(x) for x in r) for r in M)
+        return dict(id="rand%d" % idx, n=n, lo={g: tup(M) for g, M in lo.items()},
+                    H={g: tup(M) for g, M in H.items()},
+                    sub=sub if sub else core.Raw("NoSub"), rels=rels, L=L, LD=LD, LF=LF, kinds=tuple(kinds),
+                    vecs=vecs, hyp=False, xw=xw, xd=xd)
+    raise core.MachineryFailure("could not generate a random case within the magnitude bounds")
+
+
 def run(run, quick, tables):
-    pass
+    rng = random.Random(run.seed * 7919 + 5)
+    ncases = 8 if quick else 48
+    cases = [gen_case(rng, i) for i in range(ncases)]
+    body = "RandCases == <<\n  " + ",\n  ".join(core.tla_expr(c) for c in cases) + "\n>>\nNoCCases == <<>>\n"
+    path = core.write_module(run.work + "/RepRand_mod", "RepRand", ["Rep"], body)
+    c = core.cfg(constants=dict(Cases=core.Raw("RandCases"), CCases=core.Raw("NoCCases")), invariants=["Theorems", "EmitObs"])
+    c = c.replace("Cases = RandCases", "Cases <- RandCases").replace("CCases = NoCCases", "CCases <- NoCCases")
+    tables(run, path, c, "RepRand", quick, workers=min(8, core.NCPU), tag="rand:")
+    run.extra["random_cases"] = [dict(id=c["id"], n=c["n"], generators=len(c["lo"]), long_words=sorted("".join(w) for w in c["xw"]))
+                                 for c in cases[:6]]
